@@ -1,4 +1,5 @@
 import CoxeterVerif.Lemmas.Mutable2
+import CoxeterVerif.Lemmas.Mutable3Raw
 /-!
   # C03 — mutable shapes stay coherent under any history of mutations (ConvexPolyhedron core)
 
@@ -10,8 +11,9 @@ import CoxeterVerif.Lemmas.Mutable2
   (`Model/Mutable2.lean`) adds `diagonalize_inertia` and `to_hoomd` (`coherent_history2`) and the
   state machines of `Polyhedron` (`ph_coherent_history`), `Polygon`/`ConvexPolygon` (`pg_history`),
   `ConvexSpheropolygon` (`spg_history`) and `ConvexSpheropolyhedron` (`sph_history`).
-  (`merge_faces`, `sort_faces` are covered by the per-step fresh-object oracle of the harness, not
-  by theorems — see the claim.)
+  The deepening part at the end (`Model/Mutable3.lean`) adds `merge_faces`, `sort_faces`, the cached
+  `edges`, `_neighbors`, `_simplex_areas`, `_face_centroids` (`phf_coherent_history`, `cpf_history`,
+  `phf_getters_fresh`) and the unconditional `Polyhedron` theorem `ph_coherent_history`.
 -/
 open Scalar Mut
 set_option maxRecDepth 4000
@@ -1068,5 +1070,481 @@ example : SPHInv ⟨exState, 1 / 2⟩ ∧ ∀ op ∈ [SPHOp.setSize 3 1 8, .setR
   · exact one_pos
   · trivial
   · trivial
+
+end
+
+noncomputable section
+
+/-!
+  ## Deepening: histories that change the combinatorics, instance-level caches, and the
+  unconditional `Polyhedron` theorem
+
+  (`Model/Mutable3.lean`, `Lemmas/Mutable3*.lean`.)
+-/
+
+/-! ### Polyhedron: positivity of the on-demand measures is an invariant -/
+
+/-- what is assumed of the external inputs of a `Polyhedron` operation: a radius getter returns a
+positive number, `eigh` returns an orthogonal matrix.  Nothing about the state. -/
+def PHOp.Valid : PHOp → Prop
+  | .setRadius cur _ => 0 < cur
+  | .diagonalize P => IsOrth P
+  | _ => True
+
+theorem phApply_geom (s : PHState ℝ) (op : PHOp) (hop : op.Valid) (h : PHGeom s) : PHGeom (phApply s op) := by
+  unfold phApply phStep
+  cases op with
+  | setVolume v =>
+    simp only [PHState.setVolume]
+    cases hk : setterFactor 3 s.volume v with
+    | error e => simpa [hk, bind, Except.bind] using h
+    | ok k => simpa [hk, bind, Except.bind, pure, Except.pure] using h.rescale (setterFactor_pos h.vol hk)
+  | setSurfaceArea v =>
+    simp only [PHState.setSurfaceArea]
+    cases hk : setterFactor 2 s.surfaceArea v with
+    | error e => simpa [hk, bind, Except.bind] using h
+    | ok k => simpa [hk, bind, Except.bind, pure, Except.pure] using h.rescale (setterFactor_pos h.area hk)
+  | setRadius cur v =>
+    simp only [PHState.setRadius]
+    cases hk : setterFactor 1 cur v with
+    | error e => simpa [hk, bind, Except.bind] using h
+    | ok k => simpa [hk, bind, Except.bind, pure, Except.pure] using h.rescale (setterFactor_pos hop hk)
+  | setCentroid cur c => exact h.setCentroid cur c
+  | diagonalize P => exact h.rotate (isOrth_fixHanded hop) (mdet_fixHanded hop.det_pm)
+  | toHoomd c0 c1 => exact (h.setCentroid c0 V3.zero).setCentroid c1 c0
+
+/-- **C03 (Polyhedron), unconditional form**: from a closed polyhedron with planar faces (`PHGeom`:
+stored equations coherent, faces planar with unit normals, closure relation `Σ A_f n_f = 0`,
+positive on-demand volume and surface area) EVERY history of size / centre assignments,
+`diagonalize_inertia` and `to_hoomd` calls keeps all of that — in particular the getters the size
+setters divide by stay positive (no per-step hypothesis, unlike `ph_coherent_history_partial`);
+volume and area follow the motions (`k³`, `k²`, unchanged under translations and rotations). -/
+theorem ph_coherent_history (s : PHState ℝ) (ops : List PHOp) (hops : ∀ op ∈ ops, op.Valid) (h : PHGeom s) :
+    PHGeom (phRun s ops) := by
+  unfold phRun
+  induction ops generalizing s with
+  | nil => simpa using h
+  | cons op ops ih =>
+    simp only [List.foldl_cons]
+    exact ih (phApply s op) (fun o ho => hops o (List.mem_cons_of_mem _ ho))
+      (phApply_geom s op (hops op List.mem_cons_self) h)
+
+/-- the per-step hypothesis of `ph_coherent_history_partial` follows from the invariant -/
+theorem phGeom_validAt {s : PHState ℝ} (h : PHGeom s) {op : PHOp} (hop : op.Valid) : op.ValidAt s := by
+  cases op with
+  | setVolume v => exact h.vol
+  | setSurfaceArea v => exact h.area
+  | setRadius cur v => exact hop
+  | setCentroid cur c => trivial
+  | diagonalize P => trivial
+  | toHoomd c0 c1 => trivial
+
+theorem phApply_faces (s : PHState ℝ) (op : PHOp) : (phApply s op).faces = s.faces := by
+  have := ph_faces_history s [op]
+  simpa [phRun] using this
+
+/-! ### Polyhedron with faces that change, neighbours, and the cached `edges` -/
+
+inductive PHFOp where
+  | core (op : PHOp)
+  | sortFaces (faces1 : List (List Nat))
+  | mergeFaces (faces1 : List (List Nat))
+  | readEdges
+
+/-- one operation; a raising `sort_faces` leaves the state (guard / assertion before any
+assignment in the model), a raising `merge_faces` leaves what its `except` branch rebuilds -/
+def phfApply (s : PHFull ℝ) : PHFOp → PHFull ℝ
+  | .core op => s.liftCore fun c => phApply c op
+  | .sortFaces f1 =>
+      match s.sortFaces f1 with
+      | .ok s' => s'
+      | .error _ => s
+  | .mergeFaces f1 => (s.mergeFaces f1).1
+  | .readEdges => s.readEdges.2
+
+def phfRun (s : PHFull ℝ) (ops : List PHFOp) : PHFull ℝ := ops.foldl phfApply s
+
+def PHFOp.ValidAt (s : PHFull ℝ) : PHFOp → Prop
+  | .core op => op.ValidAt s.core
+  | .sortFaces f1 => s.SortGeomOK f1
+  | .mergeFaces f1 => s.SortGeomOK f1
+  | .readEdges => True
+
+def PHFValidRun : PHFull ℝ → List PHFOp → Prop
+  | _, [] => True
+  | s, op :: ops => op.ValidAt s ∧ PHFValidRun (phfApply s op) ops
+
+theorem phfApply_coherent (s : PHFull ℝ) (op : PHFOp) (hop : op.ValidAt s) (h : s.Coherent) :
+    (phfApply s op).Coherent := by
+  cases op with
+  | core op =>
+    exact PHFull.liftCore_coherent (fun c => phApply c op) (phApply_faces s.core op)
+      (phApply_coherent s.core op hop h.eqs) h
+  | sortFaces f1 =>
+    show (match s.sortFaces f1 with | .ok s' => s' | .error _ => s).Coherent
+    cases hs : s.sortFaces f1 with
+    | ok s' => exact PHFull.sortFaces_coherent hop hs
+    | error e => exact h
+  | mergeFaces f1 => exact PHFull.mergeFaces_coherent hop h
+  | readEdges => exact PHFull.readEdges_coherent h
+
+/-- **C03 (Polyhedron, every mutator and the cached `edges`)**: after any history of size / centre
+assignments, `diagonalize_inertia`, `to_hoomd`, `sort_faces`, `merge_faces` calls and reads of
+`edges`, the stored plane equations, the stored neighbour lists and the `edges` entry of the
+instance `__dict__` (if present) equal their recomputation from the current vertices and faces.
+(`SortGeomOK` is needed only in the `volume < 0` branch of `sort_faces` and holds for triangular
+faces: `PHFull.sortGeomOK_of_triangles`.) -/
+theorem phf_coherent_history (s : PHFull ℝ) (ops : List PHFOp) (h : s.Coherent) (hv : PHFValidRun s ops) :
+    (phfRun s ops).Coherent := by
+  unfold phfRun
+  induction ops generalizing s with
+  | nil => simpa using h
+  | cons op ops ih =>
+    simp only [List.foldl_cons]
+    exact ih (phfApply s op) (phfApply_coherent s op hv.1 h) hv.2
+
+/-- **every getter of a coherent `Polyhedron` returns what it returns on a freshly constructed one**
+(same vertices, faces, flag): the constructor yields the same plane equations and neighbours, and
+`edges` — served from the instance `__dict__` or not — is the edge list of the current faces. -/
+theorem phf_getters_fresh {s : PHFull ℝ} (h : s.Coherent) :
+    ∃ s0, PHFull.fresh s.core.verts s.core.faces s.conv = .ok s0 ∧ s0.core = s.core ∧
+      s0.neighbors = s.neighbors ∧ s0.readEdges.1 = s.readEdges.1 ∧
+      s0.core.volume = s.core.volume ∧ s0.core.surfaceArea = s.core.surfaceArea :=
+  ⟨{ s with edgesCache := none }, PHFull.coherent_eq_fresh h, rfl, rfl,
+    (PHFull.readEdges_value h).symm, rfl, rfl⟩
+
+/-- … in particular after any valid history -/
+theorem phf_history_getters_fresh (s : PHFull ℝ) (ops : List PHFOp) (h : s.Coherent) (hv : PHFValidRun s ops) :
+    let s' := phfRun s ops
+    ∃ s0, PHFull.fresh s'.core.verts s'.core.faces s'.conv = .ok s0 ∧ s0.core = s'.core ∧
+      s0.neighbors = s'.neighbors ∧ s0.readEdges.1 = s'.readEdges.1 :=
+  let ⟨s0, h1, h2, h3, h4, _⟩ := phf_getters_fresh (phf_coherent_history s ops h hv)
+  ⟨s0, h1, h2, h3, h4⟩
+
+/-- a raising `merge_faces` leaves a coherent `Polyhedron` exactly as it was -/
+theorem phf_merge_error_leaves_state {s : PHFull ℝ} (h : s.Coherent) (f1 : List (List Nat)) (e : String)
+    (he : (s.mergeFaces f1).2 = some e) : phfApply s (.mergeFaces f1) = s :=
+  PHFull.mergeFaces_error_restores h he
+
+/-- a mutator that forgets to drop the `edges` cache is NOT coherent: reversing nothing but
+replacing the faces while keeping a filled cache breaks `PHFull.Coherent` (what
+`self.__dict__.pop("edges", None)` in `sort_faces` is for) -/
+theorem stale_edges_fails :
+    ¬ (⟨⟨[], [[0, 1, 2]], [], []⟩, true, [[]], some (edgesOf [[0, 1, 2], [0, 2, 3]])⟩ : PHFull ℝ).Coherent := by
+  intro h
+  have := h.edges _ rfl
+  revert this
+  decide
+
+/-! ### ConvexPolyhedron with faces, neighbours, cached `edges`, `_simplex_areas`, `_face_centroids` -/
+
+structure CPFInv (s : CPFull ℝ) : Prop where
+  core : CPInv2 s.core
+  heads : s.core.faceHead = faceHeads s.faces
+  nbrs : findNeighbors s.faces = .ok s.neighbors
+  edges : ∀ e, s.edgesCache = some e → e = edgesOf s.faces
+
+inductive CPFOp where
+  | core (op : Op2)
+  | sortFaces (faces1 : List (List Nat))
+  | mergeFaces (faces1 : List (List Nat))
+  | readEdges
+  | getFaceArea
+  | readFaceCentroids
+
+def cpfApply (s : CPFull ℝ) : CPFOp → CPFull ℝ
+  | .core op => s.liftCore fun c => apply2 c op
+  | .sortFaces f1 =>
+      match s.sortFaces f1 with
+      | .ok s' => s'
+      | .error _ => s
+  | .mergeFaces f1 => (s.mergeFaces f1).1
+  | .readEdges => s.readEdges.2
+  | .getFaceArea => s.getFaceArea.2
+  | .readFaceCentroids => s.readFaceCentroids.2
+
+def cpfRun (s : CPFull ℝ) (ops : List CPFOp) : CPFull ℝ := ops.foldl cpfApply s
+
+/-- the first three vertices of the re-ordered faces give the planes the object stores (true when
+the order is unchanged — what `sort_faces` does on an object whose faces are already sorted — and
+for any cyclic re-ordering of planar convex faces) -/
+def HeadsAgree (s : CPFull ℝ) (f1 : List (List Nat)) : Prop :=
+  CPState.findEquations s.core.verts (faceHeads f1) = CPState.findEquations s.core.verts s.core.faceHead
+
+def CPFOp.ValidAt (s : CPFull ℝ) : CPFOp → Prop
+  | .core op => op.ValidAt s.core
+  | .sortFaces f1 => HeadsAgree s f1
+  | .mergeFaces f1 => HeadsAgree s f1
+  | _ => True
+
+def CPFValidRun : CPFull ℝ → List CPFOp → Prop
+  | _, [] => True
+  | s, op :: ops => op.ValidAt s ∧ CPFValidRun (cpfApply s op) ops
+
+theorem apply2_faceHead (s : CPState ℝ) (op : Op2) : (apply2 s op).faceHead = s.faceHead := by
+  cases op with
+  | base op =>
+    show (apply s op).faceHead = _
+    unfold apply step
+    cases op with
+    | setVolume v =>
+      simp only [CPState.setVolume]
+      cases hk : setterFactor 3 s.volume v <;> simp [bind, Except.bind, pure, Except.pure, CPState.rescale]
+    | setSurfaceArea v =>
+      simp only [CPState.setSurfaceArea]
+      cases hk : setterFactor 2 s.area v <;> simp [bind, Except.bind, pure, Except.pure, CPState.rescale]
+    | setRadius cur v =>
+      simp only [CPState.setRadius]
+      cases hk : setterFactor 1 cur v <;> simp [bind, Except.bind, pure, Except.pure, CPState.rescale]
+    | setCentroid c => rfl
+  | diagonalize P simp' => rfl
+  | toHoomd => rfl
+
+theorem cpInv2_heads {c : CPState ℝ} (h : CPInv2 c) (hd : List (Nat × Nat × Nat))
+    (he : CPState.findEquations c.verts hd = CPState.findEquations c.verts c.faceHead) :
+    CPInv2 { c with faceHead := hd } := by
+  obtain ⟨⟨⟨c1, c2, c3, c4, c5⟩, hvol, harea, hrng, hclosed⟩, horient⟩ := h
+  exact ⟨⟨⟨c1, c2, c3, c4.trans he.symm, c5⟩, hvol, harea, hrng, hclosed⟩, horient⟩
+
+theorem cpf_sortFaces_inv {s s' : CPFull ℝ} {f1 : List (List Nat)} (hh : HeadsAgree s f1) (h : CPFInv s)
+    (hs : s.sortFaces f1 = .ok s') : CPFInv s' := by
+  unfold CPFull.sortFaces at hs
+  cases hn : findNeighbors f1 with
+  | error e => rw [hn] at hs; cases hs
+  | ok nb =>
+    rw [hn] at hs
+    injection hs with hs; subst hs
+    exact ⟨cpInv2_heads h.core _ hh, rfl, hn, fun e he => by cases he⟩
+
+theorem cpf_mergeFaces_error_restores {s : CPFull ℝ} {f1 : List (List Nat)} {e : String} (h : CPFInv s)
+    (he : (s.mergeFaces f1).2 = some e) : (s.mergeFaces f1).1 = s := by
+  have hn := h.nbrs
+  have heq := h.core.inv.coh.2.2.2.1
+  obtain ⟨⟨verts, simplices, faceHead, eqN, eqD, seqN, seqD, volume, area, centroid⟩, faces, coplanar, nb, cache, sa, fc⟩ := s
+  simp only at hn heq
+  have e1 : eqN = (CPState.findEquations verts faceHead).1 := congrArg Prod.fst heq
+  have e2 : eqD = (CPState.findEquations verts faceHead).2 := congrArg Prod.snd heq
+  unfold CPFull.mergeFaces at he ⊢
+  cases hs : CPFull.sortFaces (⟨⟨verts, simplices, faceHead, eqN, eqD, seqN, seqD, volume, area, centroid⟩, faces,
+      coplanar, nb, cache, sa, fc⟩ : CPFull ℝ) f1 with
+  | ok s' => rw [hs] at he; cases he
+  | error e' => simp only [hn, ← e1, ← e2]
+
+theorem cpfApply_inv (s : CPFull ℝ) (op : CPFOp) (hop : op.ValidAt s) (h : CPFInv s) : CPFInv (cpfApply s op) := by
+  cases op with
+  | core op =>
+    refine ⟨apply2_inv s.core op hop h.core, ?_, h.nbrs, h.edges⟩
+    show (apply2 s.core op).faceHead = _
+    rw [apply2_faceHead]; exact h.heads
+  | sortFaces f1 =>
+    show CPFInv (match s.sortFaces f1 with | .ok s' => s' | .error _ => s)
+    cases hs : s.sortFaces f1 with
+    | ok s' => exact cpf_sortFaces_inv hop h hs
+    | error e => exact h
+  | mergeFaces f1 =>
+    show CPFInv (s.mergeFaces f1).1
+    cases he : (s.mergeFaces f1).2 with
+    | some e => rw [cpf_mergeFaces_error_restores h he]; exact h
+    | none =>
+      unfold CPFull.mergeFaces at he ⊢
+      cases hs : s.sortFaces f1 with
+      | ok s' => simp only; exact cpf_sortFaces_inv hop h hs
+      | error e' =>
+        rw [hs] at he
+        simp only at he
+        split at he <;> cases he
+  | readEdges =>
+    show CPFInv s.readEdges.2
+    unfold CPFull.readEdges
+    cases hc : s.edgesCache with
+    | none => exact ⟨h.core, h.heads, h.nbrs, fun e he => by injection he with he; exact he.symm⟩
+    | some e => exact h
+  | getFaceArea => exact ⟨h.core, h.heads, h.nbrs, h.edges⟩
+  | readFaceCentroids => exact ⟨h.core, h.heads, h.nbrs, h.edges⟩
+
+/-- **C03 (ConvexPolyhedron, every mutator and every instance-level cache)**: after any history of
+size / centre assignments, `diagonalize_inertia`, `to_hoomd`, `sort_faces`, `merge_faces` (that
+merges nothing: `HeadsAgree`), reads of `edges`, `get_face_area()` and `face_centroids`, all of
+`CPInv2` holds for the core, `face[0:3]` of the faces are the triples the equations refer to, the
+stored neighbours and the cached `edges` are those of the current faces. -/
+theorem cpf_history (s : CPFull ℝ) (ops : List CPFOp) (h : CPFInv s) (hv : CPFValidRun s ops) :
+    CPFInv (cpfRun s ops) := by
+  unfold cpfRun
+  induction ops generalizing s with
+  | nil => simpa using h
+  | cons op ops ih =>
+    simp only [List.foldl_cons]
+    exact ih (cpfApply s op) (cpfApply_inv s op hv.1 h) hv.2
+
+/-- **`get_face_area` / `face_centroids` never serve a stored value**: what they return, and what
+they leave in `_simplex_areas` / `_face_centroids`, is a function of the current vertices,
+simplices and face groups only — whatever an earlier read has stored (a lazily cached variant
+would return the stored list instead: see the seeded change r1-C03-2). -/
+theorem cpf_reads_ignore_caches (s : CPFull ℝ) (sa : Option (List ℝ)) (fc : Option (List (V3 ℝ))) :
+    ({ s with simplexAreas := sa, faceCentroids := fc } : CPFull ℝ).getFaceArea.1 = s.getFaceArea.1 ∧
+    ({ s with simplexAreas := sa, faceCentroids := fc } : CPFull ℝ).readFaceCentroids.1 = s.readFaceCentroids.1 ∧
+    s.getFaceArea.2.simplexAreas = some (s.core.tris.map CP.triArea) ∧
+    s.readFaceCentroids.2.simplexAreas = some (s.core.tris.map CP.triArea) ∧
+    s.readFaceCentroids.2.faceCentroids = some s.readFaceCentroids.1 :=
+  ⟨rfl, rfl, rfl, rfl, rfl⟩
+
+/-- the per-face areas after any history are those of the current triangles, grouped as stored -/
+theorem cpf_history_faceAreas (s : CPFull ℝ) (ops : List CPFOp) :
+    (cpfRun s ops).getFaceArea.1 =
+      CPFull.faceAreasFrom ((cpfRun s ops).core.tris.map CP.triArea) (cpfRun s ops).coplanar
+        (cpfRun s ops).faces.length := rfl
+
+/-- **defect of /repo (known finding): the inherited `merge_faces` does not keep a ConvexPolyhedron
+aligned.**  Two coplanar triangles with equal stored equations: the merge graph joins them, the
+contract of the per-face ordering holds for the merged square, and afterwards there is ONE face
+but still TWO plane equations and TWO coplanar-simplex groups. -/
+def exMis : CPFull ℝ :=
+  ⟨⟨[⟨0,0,0⟩, ⟨1,0,0⟩, ⟨1,1,0⟩, ⟨0,1,0⟩], [(0,1,2), (0,2,3)], [(0,1,2), (0,2,3)],
+      [⟨0,0,1⟩, ⟨0,0,1⟩], [0, 0], [⟨0,0,1⟩, ⟨0,0,1⟩], [0, 0], 0, 1, ⟨0,0,0⟩⟩,
+    [[0,1,2], [0,2,3]], [[0], [1]], [[1], [0]], none, none, none⟩
+
+def Mut.CPFull.Aligned (s : CPFull ℝ) : Prop :=
+  s.core.eqN.length = s.faces.length ∧ s.coplanar.length = s.faces.length
+
+theorem exMis_mergeable (i j : Nat) (hi : i < 2) (hj : j < 2) :
+    mergeable exMis.core.eqN exMis.core.eqD i j = true := by
+  have hi' : i = 0 ∨ i = 1 := by omega
+  have hj' : j = 0 ∨ j = 1 := by omega
+  rcases hi' with rfl | rfl <;> rcases hj' with rfl | rfl <;>
+    simp [mergeable, allclose4, closeTo, exMis, Scalar.abs_real, Scalar.lit, Scalar.ofNat_real] <;>
+    simp only [Scalar.q, Scalar.ofNat_real] <;> norm_num
+
+theorem exMis_graph : mergeGraph exMis.core.eqN exMis.core.eqD exMis.neighbors = [(0, 1), (1, 0)] := by
+  have h01 := exMis_mergeable 0 1 (by norm_num) (by norm_num)
+  have h10 := exMis_mergeable 1 0 (by norm_num) (by norm_num)
+  show mergeGraph exMis.core.eqN exMis.core.eqD [[1], [0]] = _
+  unfold mergeGraph
+  have hr : List.range ([[1], [0]] : List (List Nat)).length = [0, 1] := by decide
+  rw [hr]
+  simp only [List.flatMap_cons, List.flatMap_nil, List.getD_cons_zero, List.getD_cons_succ, List.filter_cons,
+    List.filter_nil, h01, h10, if_true, List.map_cons, List.map_nil, List.append_nil, List.cons_append,
+    List.nil_append]
+
+theorem exMis_contract : exMis.mergeLabels = [0, 0] ∧ exMis.mergeContract [[0, 1, 2, 3]] = true := by
+  have hl : exMis.mergeLabels = [0, 0] := by
+    unfold CPFull.mergeLabels
+    rw [exMis_graph]
+    decide
+  refine ⟨hl, ?_⟩
+  unfold CPFull.mergeContract
+  rw [hl]
+  decide
+
+theorem cpf_merge_aligned_fails :
+    exMis.Aligned ∧ (exMis.mergeFaces [[0, 1, 2, 3]]).2 = none ∧ ¬ (exMis.mergeFaces [[0, 1, 2, 3]]).1.Aligned := by
+  refine ⟨⟨rfl, rfl⟩, ?_, ?_⟩
+  · have : findNeighbors [[0, 1, 2, 3]] = .ok [[]] := by decide
+    simp [CPFull.mergeFaces, CPFull.sortFaces, this]
+  · have : findNeighbors [[0, 1, 2, 3]] = .ok [[]] := by decide
+    simp [CPFull.mergeFaces, CPFull.sortFaces, this, CPFull.Aligned, exMis]
+
+/-! ### non-vacuity of the deepening theorems -/
+
+theorem exPH_geom : PHGeom exPH := by
+  refine phGeom_of_raw exVerts exFaces ?_ ?_ ?_ ?_ ?_ ?_ ?_
+  · decide
+  · decide
+  · intro f hf
+    simp only [exFaces, List.mem_cons, List.not_mem_nil, or_false] at hf
+    rcases hf with rfl | rfl | rfl | rfl <;>
+      norm_num [rawN, vget, exVerts, V3.cross, V3.normSq, V3.dot]
+  · intro f hf i hi
+    simp only [exFaces, List.mem_cons, List.not_mem_nil, or_false] at hf
+    rcases hf with rfl | rfl | rfl | rfl <;>
+      (simp only [List.mem_cons, List.not_mem_nil, or_false] at hi
+       rcases hi with rfl | rfl | rfl <;> norm_num [rawN, vget, exVerts, V3.cross, V3.dot])
+  · intro f hf
+    simp only [exFaces, List.mem_cons, List.not_mem_nil, or_false] at hf
+    rcases hf with rfl | rfl | rfl | rfl <;>
+      norm_num [rawN, vget, exVerts, V3.cross, V3.dot, Spec3.areaVector, Spec3.cyc, facePts, V3.sum, V3.add,
+        V3.zero, Scalar.lit]
+  · ext <;>
+      norm_num [exFaces, vget, exVerts, V3.cross, Spec3.areaVector, Spec3.cyc, facePts, V3.sum, V3.add, V3.zero,
+        Scalar.lit]
+  · norm_num [exFaces, vget, exVerts, V3.cross, V3.dot, Spec3.areaVector, Spec3.cyc, facePts, V3.sum, V3.add, V3.zero,
+      Scalar.lit]
+
+/-- the hypotheses of `ph_coherent_history` are satisfiable: the corner tetrahedron, and a history
+that uses every kind of operation (with an improper `eigh` matrix) -/
+example : PHGeom exPH ∧ ∀ op ∈ [PHOp.setVolume 2, .setSurfaceArea 3, .setRadius 1 2,
+    .setCentroid ⟨0, 0, 0⟩ ⟨1, 1, 1⟩, .diagonalize exP, .toHoomd ⟨1, 1, 1⟩ ⟨0, 0, 0⟩], op.Valid := by
+  refine ⟨exPH_geom, ?_⟩
+  intro op hop
+  simp only [List.mem_cons, List.not_mem_nil, or_false] at hop
+  rcases hop with rfl | rfl | rfl | rfl | rfl | rfl
+  · trivial
+  · trivial
+  · exact one_pos
+  · trivial
+  · exact exP_orth
+  · trivial
+
+def exPHF : PHFull ℝ := ⟨exPH, true, [[1, 2, 3], [0, 2, 3], [0, 1, 3], [0, 1, 2]], none⟩
+
+theorem exPHF_coherent : exPHF.Coherent := ⟨rfl, by decide, fun e he => by cases he⟩
+
+/-- the hypotheses of `phf_coherent_history` are satisfiable on a history with reads of `edges`,
+a size setter, `sort_faces` and `merge_faces` -/
+example : exPHF.Coherent ∧ PHFValidRun exPHF
+    [.readEdges, .core (.setRadius 1 2), .sortFaces exFaces, .readEdges, .mergeFaces exFaces, .readEdges] :=
+  ⟨exPHF_coherent, trivial, one_pos, PHFull.sortGeomOK_of_triangles _ _ (by decide), trivial,
+    PHFull.sortGeomOK_of_triangles _ _ (by decide), trivial, trivial⟩
+
+def exCPF : CPFull ℝ :=
+  ⟨exState, exFaces, [[0], [1], [2], [3]], [[1, 2, 3], [0, 2, 3], [0, 1, 3], [0, 1, 2]], none, none, none⟩
+
+theorem exCPF_inv : CPFInv exCPF := ⟨exState_inv2, rfl, by decide, fun e he => by cases he⟩
+
+/-- the hypotheses of `cpf_history` are satisfiable -/
+example : CPFInv exCPF ∧ CPFValidRun exCPF
+    [.sortFaces exFaces, .getFaceArea, .core (.base (.setVolume 2)), .readEdges, .readFaceCentroids] :=
+  ⟨exCPF_inv, rfl, trivial, trivial, trivial, trivial, trivial⟩
+
+/-- **the sign fix of `diagonalize_inertia` for ANY matrix** (no orthogonality assumed):
+`if det(P) < 0: P[:, 0] *= -1` leaves a matrix of determinant `|det P|` — never negative; with
+`IsOrth P` (so `det P = ±1`) this is `fixHanded_proper`'s `det = +1`. -/
+theorem fixHanded_det_abs (P : M3 ℝ) : mdet (fixHanded P) = |mdet P| := by
+  unfold fixHanded
+  by_cases h : mdet P < (lit 0 : ℝ)
+  · have h' : mdet P < 0 := by simpa [Scalar.lit] using h
+    rw [if_pos h, mdet_negCol0, abs_of_neg h']
+  · have h' : 0 ≤ mdet P := by simpa [Scalar.lit] using h
+    rw [if_neg h, abs_of_nonneg h']
+
+example : mdet (fixHanded exP) = 1 := by
+  rw [fixHanded_det_abs]; norm_num [exP, mdet_eq]
+
+/-- **certificate for the hypothesis of `ph_coherent_history`**: the decidable, sqrt-free check
+`closedPolyCheck` (the driver evaluates it exactly over ℚ on the implementation's own vertices and
+faces) implies the invariant `PHGeom` for the freshly constructed `Polyhedron(vertices, faces)` … -/
+theorem ph_certificate_sound (verts : List (V3 ℝ)) (faces : List (List Nat))
+    (h : closedPolyCheck verts faces = true) :
+    PHGeom ⟨verts, faces, (PHState.findEquations verts faces).1, (PHState.findEquations verts faces).2⟩ :=
+  closedPolyCheck_sound verts faces h
+
+/-- … hence for every history from it. -/
+theorem ph_history_of_certificate (verts : List (V3 ℝ)) (faces : List (List Nat))
+    (h : closedPolyCheck verts faces = true) (ops : List PHOp) (hops : ∀ op ∈ ops, op.Valid) :
+    PHGeom (phRun ⟨verts, faces, (PHState.findEquations verts faces).1, (PHState.findEquations verts faces).2⟩ ops) :=
+  ph_coherent_history _ ops hops (closedPolyCheck_sound verts faces h)
+
+/-- `SortGeomOK` (needed in the `volume < 0` branch of `sort_faces`) holds for faces of ANY size that
+are planar and convex at their first and last corner (`FlipCond`: the raw normal at the last corner
+is a negative multiple of the one at the first when the face is reversed, and the last vertex lies
+in the plane of the first three) — e.g. the polygons `merge_faces` produces from coplanar triangles -/
+theorem phf_sortGeomOK_of_planar_convex (s : PHFull ℝ) (faces1 : List (List Nat))
+    (h : ∀ f ∈ faces1, FlipCond s.core.verts f) : s.SortGeomOK faces1 :=
+  PHFull.sortGeomOK_of_planar_convex s faces1 h
+
+/-- `FlipCond` is satisfiable: the unit square -/
+example : FlipCond [⟨0, 0, 0⟩, ⟨1, 0, 0⟩, ⟨1, 1, 0⟩, ⟨0, 1, 0⟩] [0, 1, 2, 3] := by
+  refine ⟨1, one_pos, ?_, ?_⟩
+  · ext <;> norm_num [rawN, vget, V3.cross]
+  · norm_num [rawN, vget, V3.cross, V3.dot]
 
 end
